@@ -1518,6 +1518,10 @@ class WBEMListener:
                             certfile=self._certfile,
                             keyfile=self._keyfile,
                             server_side=True)
+                    except Exception:
+                        # The HTTPS server will not be started: free its port
+                        server.server_close()
+                        raise
 
                     self.logger.info(
                         "Starting HTTPS listener thread to run threaded "
@@ -1535,8 +1539,12 @@ class WBEMListener:
                 self._https_thread = None
 
         except Exception as exc:  # pylint: disable=broad-exception-caught
-            self.logger.error("Cleaning up callback thread due to exception "
-                              "%s: %s", exc.__class__.__name__, exc)
+            self.logger.error("Cleaning up listener threads and callback "
+                              "thread due to exception %s: %s",
+                              exc.__class__.__name__, exc)
+            # A listener thread that was already started must not continue
+            # to accept indications that would never be delivered.
+            self._stop_listener_threads()
             self._stop_indication_delivery(immediate=True)
             raise
 
